@@ -280,16 +280,20 @@ func freshCapacity(n, q int, custom bool) int {
 type acfg struct {
 	producers, each int
 	panicFirst      bool
+	presize         bool // the list has the capacity it has after a burst of > 1024 functions
 }
 
 func (c acfg) name() string {
-	return fmt.Sprintf("async producers=%d each=%d panic=%v", c.producers, c.each, c.panicFirst)
+	return fmt.Sprintf("async producers=%d each=%d panic=%v presized=%v", c.producers, c.each, c.panicFirst, c.presize)
 }
 
 func asyncBody(c acfg) func() {
 	return func() {
 		w := &world{}
 		tm := timer.New("c19")
+		if c.presize {
+			tm.VerifPresize(2000)
+		}
 		overl := 0
 		for p := 0; p < c.producers; p++ {
 			p := p
@@ -415,7 +419,7 @@ func build(tier string) []*vkit.Scenario {
 			}
 		}
 	}
-	for _, c := range []acfg{{2, 2, false}, {2, 2, true}, {3, 1, true}, {3, 2, false}} {
+	for _, c := range []acfg{{2, 2, false, false}, {2, 2, true, false}, {3, 1, true, false}, {3, 2, false, false}, {2, 2, false, true}, {3, 1, true, true}} {
 		AP := 3
 		if c.producers*c.each > 4 {
 			AP = 1
